@@ -363,7 +363,16 @@ def observe(c):
         m = build(c["m"])
         text = S.encode(m, properties=c["p"], lnk=c["l"], indent=c["indent"])
         toks = lex(text)
-        return {"toks": toks, "dec": decode_tokens(toks)}
+        o = {"toks": toks, "dec": decode_tokens(toks)}
+        from delphin.codecs import mrsjson
+        d = mrsjson.to_dict(m, properties=c["p"], lnk=c["l"])
+        back = mrsjson.from_dict(d)
+        full = mrs_obs(m)
+        full["vars"] = [[v, [[k, x] for k, x in ps.items()]] for v, ps in m.variables.items()]
+        bk = mrs_obs(back)
+        bk["vars"] = [[v, [[k, x] for k, x in ps.items()]] for v, ps in back.variables.items()]
+        o["json"] = {"d": d, "full": full, "back": bk}
+        return o
     if c["k"] == "doc":
         ms = [build(d) for d in c["ms"]]
         text = S.dumps(ms, properties=c["p"], lnk=c["l"], indent=c["indent"])
@@ -576,6 +585,22 @@ def c_dec(dec):
     return "(Some %s)" % clist(dec["ms"], c_xmrs)
 
 
+def c_jv(v):
+    if v is None:
+        return "JNull"
+    if isinstance(v, bool):
+        raise ValueError("bool in MRS-JSON")
+    if isinstance(v, int):
+        return "(JInt %s)" % cZ(v)
+    if isinstance(v, str):
+        return "(JStr %s)" % cstr(v)
+    if isinstance(v, dict):
+        return "(JObj %s)" % clist(list(v.items()), lambda kv: "(%s, %s)" % (cstr(kv[0]), c_jv(kv[1])))
+    if isinstance(v, list):
+        return "(JArr %s)" % clist(v, c_jv)
+    raise ValueError(type(v).__name__)
+
+
 def coq_case(c, o):
     if "exc" in o:
         raise ValueError("harness")
@@ -584,5 +609,9 @@ def coq_case(c, o):
     toks = clist(o["toks"], c_tok)
     dec = app("CDec", toks, c_dec(o["dec"]))
     if c["k"] == "mrs":
-        return [app("CEnc", cbool(c["p"]), cbool(c["l"]), c_xmrs(c["m"]), "(Some %s)" % toks), dec]
+        out = [app("CEnc", cbool(c["p"]), cbool(c["l"]), c_xmrs(c["m"]), "(Some %s)" % toks), dec]
+        if "json" in o and all(r.get("surface") != "" for r in c["m"]["rels"]):
+            j = o["json"]
+            out.append(app("CJson", cbool(c["p"]), cbool(c["l"]), c_xmrs(j["full"]), c_jv(j["d"]), c_xmrs(j["back"])))
+        return out
     return dec
